@@ -29,6 +29,19 @@ CHECKS = {
     'C07': ('pre/post-condition monitor (snapshot counter before, compare after) on prior_combinations_sample, in direct histories and inside pipeline runs; exported counts vs logged selections',
             'Every sampler call of every history is checked for: returned subset of offered, exactly min(cap, m) distinct, least-evaluated-first against the prior counts, +1 on exactly the selected keys, spread <= 1 on stable duplicate-free lists; all cap sequences on <=5/6 candidates are enumerated; the counts exported by the library and the task must equal the selections observed.',
             'Fairness asserted for duplicate-free lists only. Counter observed through the module attribute.', '3/C07'),
+
+    'C08': ('invariant at a hook: wrapper on compute_batch_ranking records rows in / triplets out and reads the checkpoint left by the previous batch; independent file reader + statistics.median as oracle',
+            'For every streaming run the batches handed to the ranker must equal those of an independent reader of the file (subsampling, validity, batch trigger, tail rule), the invalid-line count must match, the grouped result / pairwise_ranks.tsv must be the per-pair median in ascending order, and at every batch boundary the on-disk checkpoint must hold the median of the batches so far. Exhaustive for rows<=12, batch<=5, subsampling<=3 and every single corrupted row.',
+            'Scoring heuristics only (Constant writes no checkpoint). Python csv defines field counts. Cells contain no line breaks.', '3/C08'),
+    'C09': ('schedule perturbation + differential oracle: fresh processes running the real task with the real process pool, per-task injected delays, per-run PYTHONHASHSEED; event log proves distinct completion orders',
+            'The (A,B)->score text of pairwise_ranks.tsv must be identical across pool sizes, delay seeds, hash seeds, repetitions and an in-process synchronous reference; the run matrix must exhibit >= 3 distinct completion orders and multi-pid overlap, otherwise the verdict is inconclusive.',
+            'Delays perturb ordering only. Schedules not produced by the perturbation are not covered.', '3/C09'),
+    'C10': ('partition-equality oracle on the columns appended by compute_combined_features; exhaustive tiny frames over {"", "1", "11"}; planted concatenation/length-prefix ambiguities',
+            'For every emitted interaction column, equality of values must coincide with equality of the constituent tuples; originals and the caller frame must be untouched; the number and names of new columns must be min(cap, C(n,k)) candidates; the score of an interaction column must equal the score of the explicit tuple.',
+            '64-bit hash collisions ignored. Strings only.', '3/C10'),
+    'C11': ('snapshot-before / compare-after wrappers on all five feature constructors while compute_batch_ranking runs all 2^5 flag subsets; cell-level recomputation of the stated rules',
+            'Every constructor invocation is checked for: old columns preserved in place, new columns complete and row-aligned, caller frame untouched, MULTIEX cells = token membership, one-/two-sided sub-feature cells = stated rule, CONTROL-target = label.',
+            'RangeIndex string frames; feature names avoid &,|,-. Noise flag: pipeline raises later (out of scope), constructor still observed.', '3/C11'),
 }
 
 PENDING_REASON = 'check not built yet in this revision (planned: runtime monitor per DESIGN.md section 3)'
